@@ -23,8 +23,10 @@ import (
 // third-party files. After the call the harness observes: error?, source path present?, source content
 // original?, destination reads the original content?, third-party files intact?
 //
-// Kinds 10..13 provoke a real fault without hooks: destination /dev/full (create succeeds, every write
-// fails with ENOSPC), a symlink to /dev/full, a destination directory without write permission, an
+// Kinds 11..13 provoke a real fault without hooks: destination a symlink (inside the scratch directory) to
+// /dev/full (create follows it and succeeds, every write fails with ENOSPC; code that removes or renames
+// over its destination only hits the symlink - /dev/full itself is never passed as a path, kind 10 of the
+// model is not run, and the device node is checked before and after), a destination directory without write permission, an
 // unreadable source (the last two are skipped when running as root, which ignores permission bits).
 // The source content comes from content classes chosen independently of the size (random, all zeros,
 // zero tails / heads around 4 KiB and 32 KiB boundaries, alternating zero blocks, all 0xFF).
@@ -127,6 +129,15 @@ func devOf(path string) (uint64, bool) {
 		return 0, false
 	}
 	return uint64(st.Dev), true
+}
+
+// devFullIntact: /dev/full is still the character device 1:7.
+func devFullIntact() bool {
+	var st syscall.Stat_t
+	if err := syscall.Lstat("/dev/full", &st); err != nil {
+		return false
+	}
+	return st.Mode&syscall.S_IFMT == syscall.S_IFCHR && st.Rdev == 0x107
 }
 
 func b2s(b bool) string {
@@ -319,7 +330,10 @@ func runC18(e *hk.Env) (retErr error) {
 			dst = filepath.Join(dstDir, "dst.lnk")
 			setupOK = os.WriteFile(target, otherContent, 0o644) == nil && os.Symlink(target, dst) == nil
 		case kDevFull:
-			dst = "/dev/full"
+			// never used as a path: buggy code under test that removes or renames over its destination
+			// would destroy the device node. The model kind stays; the harness only uses the symlink spelling.
+			retErr = fmt.Errorf("kind dev-full must not be run")
+			return
 		case kSymlinkDevFull:
 			dst = filepath.Join(dstDir, "full.lnk")
 			setupOK = os.Symlink("/dev/full", dst) == nil
@@ -334,6 +348,17 @@ func runC18(e *hk.Env) (retErr error) {
 		}
 		if !setupOK {
 			e.Count("setup_failed", 1)
+			return
+		}
+
+		// the destination path itself (lexically) must lie inside the scratch roots; only a symlink may lead out
+		cleanDst := filepath.Clean(dst)
+		if !(strings.HasPrefix(cleanDst, rootA+"/") || (rootB != "" && strings.HasPrefix(cleanDst, rootB+"/"))) {
+			retErr = fmt.Errorf("refusing destination outside the scratch roots: %s", dst)
+			return
+		}
+		if kind == kSymlinkDevFull && !devFullIntact() {
+			retErr = fmt.Errorf("/dev/full is not the character device 1:7 before the scenario")
 			return
 		}
 
@@ -353,6 +378,10 @@ func runC18(e *hk.Env) (retErr error) {
 			}
 		}()
 
+		if kind == kSymlinkDevFull && !devFullIntact() {
+			retErr = fmt.Errorf("/dev/full is no longer the character device 1:7 after %s(src, symlink to /dev/full)", []string{"CopyFile", "MoveFile"}[op])
+			return
+		}
 		ok := callErr == nil && panicked == ""
 		if kind == kSrcUnreadable {
 			os.Chmod(src, 0o644) // harmless if MoveFile renamed it away
@@ -450,7 +479,6 @@ func runC18(e *hk.Env) (retErr error) {
 				// real faults (non-empty content: an empty copy performs no write)
 				if size > 0 && (class <= 2 || size <= 65536) {
 					if devFullOK {
-						one(op, kDevFull, true, false, size, variant, class)
 						one(op, kSymlinkDevFull, false, false, size, variant, class)
 						if otherDev {
 							one(op, kSymlinkDevFull, true, false, size, variant, class)
@@ -470,6 +498,9 @@ func runC18(e *hk.Env) (retErr error) {
 				}
 			}
 		}
+	}
+	if devFullOK && !devFullIntact() {
+		return fmt.Errorf("/dev/full is no longer the character device 1:7 after the sweep")
 	}
 	e.Stats["by_content_class"] = byClass
 	e.Stats["cases"] = caseNo
